@@ -24,7 +24,7 @@ func genAuthE2ECase(t *rapid.T) AuthE2ECase {
 		s := AuthStep{
 			Method: rapid.SampledFrom([]string{"DESCRIBE", "DESCRIBE", "ANNOUNCE", "SETUP", "OPTIONS"}).Draw(t, "method"),
 			Creds: rapid.SampledFrom([]string{"none", "right", "right", "right", "wrong-pass", "wrong-user", "wrong-nonce", "wrong-realm", "wrong-uri",
-				"other-method", "garbage"}).Draw(t, "creds"),
+				"other-method", "garbage", "replay", "replay"}).Draw(t, "creds"),
 			Stale: rapid.IntRange(0, 2).Draw(t, "stale") == 0,
 		}
 		c.Steps = append(c.Steps, s)
@@ -44,6 +44,7 @@ func TestC10E2E(t *testing.T) {
 		pbt.Count("C10", "e2e_accepted", int64(st.Accepted))
 		pbt.Count("C10", "e2e_rejected_and_closed", int64(st.Rejected))
 		pbt.Count("C10", "e2e_first_request_stale_digest", int64(st.StaleDigest))
+		pbt.Count("C10", "e2e_accepted_header_replayed_on_another_method", int64(st.Replayed))
 		pbt.Count("C10", "e2e_first_request_preemptive_basic", int64(st.PreemptiveBasic))
 		pbt.Check(rt, "C10", "e2e", c, st.Accepted >= 1 && st.Rejected >= 1, labels, func() error { return err })
 	})
